@@ -5,7 +5,7 @@
    configuration, initial store and history.                                                     *)
 From Coq Require Import List ZArith Bool.
 Import ListNotations.
-Require Import V.C22.Model V.C22.Proofs.
+Require Import V.C22.Model V.C22.Proofs V.C22.History.
 Open Scope Z_scope.
 
 (* 'never' writes no record, whatever the history. *)
@@ -130,6 +130,62 @@ Theorem deck_records_in_order : forall t fs d,
   flat_map (fun e => match e with DMap m => [map (fun k => lookupz k m) fs] | DOther _ => [] end) d.
 Proof. exact deck_recs_cells. Qed.
 Print Assumptions deck_records_in_order.
+
+(* ---- history-level theorems ------------------------------------------------------------------ *)
+
+(* 'deck' over ANY history of pushes, writes and logger controls: the cells of all records written so far
+   followed by the cells of what is still queued are exactly the cells of everything ever queued (initial deck
+   ++ every push, in order; non-mappings skipped): each queued mapping is logged exactly once, FIFO, across
+   runs, nothing is lost or duplicated *)
+Theorem deck_conservation : forall c t0 ss f0 tag i fs0 lgs ops,
+  crule c = Deck -> clog c = (tag, i, fs0) :: lgs -> fs0 <> [] -> (i < length ss)%nat ->
+  let s := run c t0 ss f0 ops in
+  map rec_cells (recs (file s)) ++ entry_cells fs0 (sdeck (getsh (shares s) i)) =
+  map rec_cells (recs f0) ++ entry_cells fs0 (sdeck (getsh ss i) ++ pushed i ops).
+Proof. exact deck_conservation_l. Qed.
+Print Assumptions deck_conservation.
+
+(* 'streak' over ANY history of appends and logger controls (the streak share's fields are not overwritten by
+   Write/Chg): elements logged so far ++ elements still queued = initial queue ++ everything appended *)
+Theorem streak_conservation : forall c t0 ss f0 tag i k fs0 lgs q0 ops,
+  crule c = Streak -> clog c = (tag, i, k :: fs0) :: lgs ->
+  lookup k (sdata (getsh ss i)) = Some (VL q0) ->
+  forallb (fun o => negb (touches i o)) ops = true ->
+  let s := run c t0 ss f0 ops in
+  flat_map rec_vals (recs (file s)) ++ queue k i s = flat_map rec_vals (recs f0) ++ q0 ++ appended i k ops.
+Proof. exact streak_conservation_l. Qed.
+Print Assumptions streak_conservation.
+
+(* 'always', closed form: a new file is exactly the header followed by one snapshot per effective logger run *)
+Theorem always_closed_form : forall c t0 ss ops, crule c = Always ->
+  file (run c t0 ss None ops) = None \/
+  exists h, file (run c t0 ss None ops) = Some (Hdr Always h :: snaps c (init c t0 ss None) ops).
+Proof. exact always_closed_form_l. Qed.
+Print Assumptions always_closed_form.
+
+(* 'change' over whole histories with any number of STOP/START sessions: a RUN/STOP of a started logger writes a
+   record iff the logged cells differ from the cells SEEN BY THE MOST RECENT LOGGER RUN, START INCLUDED
+   (last_seen) ... *)
+Theorem change_over_whole_histories : forall c t0 ss f0 ops r, crule c = Change -> (r = Run \/ r = Stop) ->
+  let s := run c t0 ss f0 ops in
+  active s = true ->
+  exists seen, last_seen c (init c t0 ss f0) ops None = Some seen /\
+    recs (file (step c s r)) = recs (file s) ++
+      (if cells_eqb (cells (shares s) (clog c) (pfields s)) seen then []
+       else [Rec (now s) (cells (shares s) (clog c) (pfields s))]).
+Proof. exact change_whole_l. Qed.
+Print Assumptions change_over_whole_histories.
+
+(* ... because a restart START re-bases: prepare() sets lasts to the current cells, so START itself never
+   writes a record (only the very first START of a Log does) -- a change made while the logger was stopped is
+   never logged *)
+Theorem change_restart_rebases : forall c t0 ss f0 ops, crule c = Change ->
+  let s := run c t0 ss f0 ops in
+  lstamp s <> None ->
+  recs (file (step c s Start)) = recs (file s) /\
+  lasts (step c s Start) = cells (shares s) (clog c) (pfields (step c s Start)).
+Proof. exact change_restart_l. Qed.
+Print Assumptions change_restart_rebases.
 
 (* non-vacuity *)
 Example c22_update_nonvacuous :
